@@ -202,9 +202,23 @@ func (k *Keys) ContractUC() types.UnlockConditions {
 // V1Form forms a v1 contract with WindowStart=h+a, WindowEnd=WindowStart+b, file size F.
 func V1Form(a, b uint64, F uint64) Action { return V1FormSalted(a, b, F, -1) }
 
+// V1FormAbs forms a v1 contract with absolute window heights (may violate the formation rule: C08 probes).
+func V1FormAbs(ws, we, F uint64) Action {
+	return Action{fmt.Sprintf("v1form-abs(ws=%d,we=%d)", ws, we), func(bc *BlockCtx) bool { return v1form(bc, ws, we, F, -1) }}
+}
+
+// V2FormAbs forms a v2 contract with absolute proof/expiration heights.
+func V2FormAbs(ph, eh, F uint64) Action {
+	return Action{fmt.Sprintf("v2form-abs(ph=%d,eh=%d)", ph, eh), func(bc *BlockCtx) bool { return v2form(bc, ph, eh, F, -1) }}
+}
+
 // V1FormSalted is V1Form with a salt in the arbitrary data (changes the contract ID and hence the challenged leaf).
 func V1FormSalted(a, b uint64, F uint64, salt int) Action {
-	return Action{fmt.Sprintf("v1form(a=%d,b=%d,F=%d)", a, b, F), func(bc *BlockCtx) bool {
+	return Action{fmt.Sprintf("v1form(a=%d,b=%d,F=%d)", a, b, F), func(bc *BlockCtx) bool { return v1form(bc, bc.H+a, bc.H+a+b, F, salt) }}
+}
+
+func v1form(bc *BlockCtx, ws, we, F uint64, salt int) bool {
+	{
 		if !bc.V1OK() {
 			return false
 		}
@@ -221,7 +235,7 @@ func V1FormSalted(a, b uint64, F uint64, salt int) Action {
 		x := s.Div64(4)
 		fc := types.FileContract{
 			Filesize: F, FileMerkleRoot: spec.FileRoot(spec.FileData(int(F), byte(F%251))),
-			WindowStart: bc.H + a, WindowEnd: bc.H + a + b, Payout: payout,
+			WindowStart: ws, WindowEnd: we, Payout: payout,
 			ValidProofOutputs:  []types.SiacoinOutput{{Value: r, Address: w.Keys.Addr(AddrV1)}, {Value: s, Address: w.Keys.Addr(AddrV1b)}},
 			MissedProofOutputs: []types.SiacoinOutput{{Value: r, Address: w.Keys.Addr(AddrV1)}, {Value: s.Sub(x), Address: w.Keys.Addr(AddrV1b)}, {Value: x, Address: types.VoidAddress}},
 			UnlockHash:         w.Keys.ContractUC().UnlockHash(),
@@ -239,7 +253,7 @@ func V1FormSalted(a, b uint64, F uint64, salt int) Action {
 		bc.Used[types.Hash256(p.ID)] = true
 		bc.addV1("v1form", txn)
 		return true
-	}}
+	}
 }
 
 // pickFC returns the oldest unresolved unused v1 contract satisfying ok (on its latest revision, incl. in-block).
@@ -536,12 +550,16 @@ func V2Form(a, b, F uint64) Action { return V2FormSalted(a, b, F, -1) }
 
 // V2FormSalted is V2Form with a salt in the arbitrary data.
 func V2FormSalted(a, b, F uint64, salt int) Action {
-	return Action{fmt.Sprintf("v2form(a=%d,b=%d,F=%d)", a, b, F), func(bc *BlockCtx) bool {
+	return Action{fmt.Sprintf("v2form(a=%d,b=%d,F=%d)", a, b, F), func(bc *BlockCtx) bool { return v2form(bc, bc.H+a, bc.H+a+b, F, salt) }}
+}
+
+func v2form(bc *BlockCtx, ph, eh, F uint64, salt int) bool {
+	{
 		if !bc.V2OK() {
 			return false
 		}
 		w := bc.W
-		fc := w.NewV2Contract(bc.H, a, b, F)
+		fc := w.NewV2Contract(ph, 0, eh-ph, F)
 		cost := fc.RenterOutput.Value.Add(fc.HostOutput.Value).Add(cur(RefTaxV2(fc)))
 		p, ok := bc.PickSC(func(c int) bool { return c == AddrV2 || c == AddrACS || c == AddrV1 }, cost.Add(Fee))
 		if !ok {
@@ -558,7 +576,7 @@ func V2FormSalted(a, b, F uint64, salt int) Action {
 		bc.Used[types.Hash256(p.ID)] = true
 		bc.addV2("v2form", txn)
 		return true
-	}}
+	}
 }
 
 // pickV2FC returns the oldest unresolved unused v2 contract satisfying ok on its latest revision.
